@@ -75,6 +75,8 @@ extend type Team implements Named { name: String }
 ''', 'query Q { a users { id name email } named { __typename name ... on User { email } ... on Team { id } } }\n'),
     # a body-less enum declared before the enum that is used (type indices must stay aligned)
     ('synth/bodyless-enum', 'enum Stub\nenum Color { RED GREEN }\nenum Size { S M }\ntype Query { c: Color s(size: Size): Size }\n', 'query Q($z: Size) { c s(size: $z) }\n'),
+    # built-in scalars spelled out by the SDL printer
+    ('synth/declared-builtins', 'scalar ID\nscalar Int\nscalar String\nscalar Date\ntype Query { id: ID! n: Int s: String d: Date f: Float }\n', 'query Q { id n s d f }\n'),
     # input objects with defaults, enums and custom scalars side by side
     ('synth/inputs', '''scalar Date
 enum Color { RED GREEN }
